@@ -44,6 +44,7 @@ let term_with (s : Model.snap) (code : int) : Model.n option =
 
 let () =
   iter_cases stdin (fun c ->
+      Pick.reset ();
       let kname = match param c "kind" with Some k -> k | None -> "bdd" in
       let tts : (int, vt) Hashtbl.t = Hashtbl.create 64 in
       let ver : (int, int) Hashtbl.t = Hashtbl.create 64 in
